@@ -188,6 +188,10 @@ std::optional<sqf::runtime::fileio::pathinfo> sqf::fileio::impl_default::get_inf
 {
     log(logmessage::fileio::ResolvePhysicalRequested(current.physical, current.virtual_, viewVirtual));
 
+    // backslashes separate path segments in requests, whatever the host's native separator is
+    std::string viewNormalized(viewVirtual);
+    std::replace(viewNormalized.begin(), viewNormalized.end(), '\\', '/');
+    viewVirtual = viewNormalized;
     std::filesystem::path toFindPath(viewVirtual);
     toFindPath = toFindPath.lexically_normal();
     if (toFindPath.is_relative() || (viewVirtual.size() > 3 && (viewVirtual.substr(0, 3) == "../"sv || viewVirtual.substr(0, 3) == "..\\"sv)))
